@@ -70,9 +70,11 @@ def track_of_channel(ch):
     return ch // 4
 
 
-def check_delivery(song, line, stamps="time", disabled_tracks=(), solo=None, tempo_mult=Fraction(1), allow_loop=False):
+def check_delivery(song, line, stamps="time", disabled_tracks=(), solo=None, tempo_mult=Fraction(1), allow_loop=False, known_hits=None):
     """clauses of C07 on one `tickall`/`playlog` observation; returns list of failure strings"""
     fails = []
+    if known_hits is None:
+        known_hits = []
     evs = sq.parse_events(sq.ev_of(line))
     E = [(st, tuple(f)) for (tag, st, f) in evs if tag == "E"]
     # the synthetic song-begin event
@@ -125,32 +127,58 @@ def check_delivery(song, line, stamps="time", disabled_tracks=(), solo=None, tem
             if not (lo <= f <= hi):
                 fails.append("event %s of track %d due at frame %.1f took effect at frame %d" % (c, ti, float(t * RATE), int(f)))
                 break
-    # same-tick order inside one track (= one channel group): controllers / program changes before note-ons,
-    # note-offs of already sounding notes before note-ons, file order kept among note-ons and among controllers
+    # same-tick order inside one track (= one channel group).  Allowed deviations from the file order at one tick (property text):
+    # controllers / program changes before note-ons, note-offs of already sounding notes before note-ons.
     by_stamp = collections.OrderedDict()
     for (st, f) in E:
         by_stamp.setdefault(st, []).append((int(f[0]), int(f[1]), int(f[2]), f[3]))
     sounding = set()
-    file_rows = collections.defaultdict(list)
-    for (t, ti, i, c, d, tick) in expected:
-        file_rows[(ti, tick)].append(c)
+    eff_sorted = sorted(eff, key=lambda x: (x[0], x[1], x[2]))
+    ptr = 0
+    def subseq(xs, pred):
+        return [x for x in xs if pred(x)]
     for st, items in (by_stamp.items() if stamps == "time" else []):        # frame stamps are too coarse to separate ticks
+        sl = eff_sorted[ptr:ptr + len(items)]
+        ptr += len(items)
         for ti in range(len(song.tracks)):
-            mine = [c for c in items if c[0] < 0xF0 and track_of_channel(c[2]) == ti]
-            first_on = next((k for k, c in enumerate(mine) if c[0] == 9), None)
+            F = [c for (t, tj, i, c, d, tick) in sorted(sl, key=lambda x: (x[1], x[2])) if tj == ti and c[0] < 0xF0]
+            ticks = set(tick for (t, tj, i, c, d, tick) in sl if tj == ti)
+            D = [c for c in items if c[0] < 0xF0 and track_of_channel(c[2]) == ti]
+            if len(ticks) != 1 or collections.Counter(F) != collections.Counter(D):
+                continue                                 # several ticks fell into one delivery instant: nothing to say about one tick
+            # file order is kept among note-ons, among controllers/program changes/bends, among aftertouch
+            for name, pred in (("note-ons", lambda c: c[0] == 9), ("controller/program/bend events", lambda c: c[0] in (0xB, 0xC, 0xD, 0xE)), ("note aftertouch", lambda c: c[0] == 0xA)):
+                if subseq(F, pred) != subseq(D, pred):
+                    fails.append("at %s the %s of track %d are delivered in another order than in the file" % (st, name, ti))
+            first_on = next((k for k, c in enumerate(D) if c[0] == 9), None)
             if first_on is not None:
-                for k, c in enumerate(mine):
+                for k, c in enumerate(D):
                     if k > first_on and c[0] in (0xB, 0xC, 0xD, 0xE):
                         fails.append("at %s a controller/program/bend event %s of track %d is delivered after a note-on of the same tick" % (st, c, ti))
-                # the first note-off of a note that sounds since an earlier tick comes before every note-on of this tick
-                # (further note-offs of the same key at this tick end a zero-length note started here and follow its note-on)
-                seen_off = set()
-                for k, c in enumerate(mine):
-                    if c[0] == 8:
-                        key = (c[2], c[3][:2])
-                        if key in sounding and key not in seen_off and k > first_on:
-                            fails.append("at %s the note-off %s of a note sounding since an earlier tick is delivered after a note-on of the same tick" % (st, c))
-                        seen_off.add(key)
+            # per key: the delivered on/off sequence is the file's, except that the first note-off of a key that sounds since an
+            # earlier tick may come first
+            keys = sorted(set((c[2], c[3][:2]) for c in F if c[0] in (8, 9)))
+            for key in keys:
+                FK = [c[0] for c in F if c[0] in (8, 9) and (c[2], c[3][:2]) == key]
+                DK = [c[0] for c in D if c[0] in (8, 9) and (c[2], c[3][:2]) == key]
+                release = key in sounding and 8 in FK
+                if release:
+                    k0 = FK.index(8)
+                    allowed = [[8] + FK[:k0] + FK[k0 + 1:]]
+                else:
+                    allowed = [FK]
+                if DK not in allowed:
+                    # a note-off written before a note-on of the same key at the same tick (other than the release of a sounding note)
+                    first_on_f = FK.index(9) if 9 in FK else len(FK)
+                    offs_before = FK[:first_on_f].count(8) - (1 if key in sounding else 0)
+                    if offs_before > 0 or FK.count(9) >= 2:
+                        known_hits.append("at %s key %s of channel %d: file order %s delivered as %s" % (st, key[1], key[0], FK, DK))
+                    else:
+                        fails.append("at %s the note-on/off events of key %s on channel %d (file order %s, key %s before this tick) are delivered as %s" % (
+                            st, key[1], key[0], FK, "sounding" if key in sounding else "silent", DK))
+                elif release and first_on is not None:
+                    if D.index(next(c for c in D if c[0] == 8 and (c[2], c[3][:2]) == key)) > first_on:
+                        fails.append("at %s the note-off of key %s (sounding since an earlier tick) is delivered after a note-on of the same tick" % (st, key[1]))
         for c in items:                        # the delivered order decides what sounds afterwards
             if c[0] == 9:
                 sounding.add((c[2], c[3][:2]))
@@ -227,6 +255,7 @@ def run(tier, replay=None):
         hs = histories(ctx)
     res = sq.run([h for h, _ in hs])
     nfail = 0
+    known_hits = []
     kinds = collections.Counter()
     nev = 0
     for (h, meta), (io, mo) in zip(hs, res):
@@ -242,7 +271,7 @@ def run(tier, replay=None):
             if io[4].split()[0] != "ret=0":
                 fails.append("a well-formed file was rejected: %s" % io[4][:100])
             elif meta["kind"] == "linear":
-                fails += check_delivery(song, line, allow_loop=False)
+                fails += check_delivery(song, line, allow_loop=False, known_hits=known_hits)
                 total = sq.dy(sq.core(io[meta["obs"] - 1]).split("=", 1)[1])
                 want = max(t[0] for t in gen_smf.reference_timeline(song)) + 1
                 # an End-of-Track alone at its tick does not count (trailing silence is skipped)
@@ -282,6 +311,12 @@ def run(tier, replay=None):
             nfail += 1
             if nfail <= 3:
                 ctx.violate("monitor", "# %s\n# kind=%s\n%s\n" % (f, meta["kind"], "\n".join(h)))
+    if known_hits:
+        listed = [k for k in common.load_known() if k.get("status") == "open" and k.get("property") == PROP and k.get("id") == "noteoff-before-noteon-same-tick"]
+        if listed:
+            ctx.known("%s (%d occurrences, e.g. %s)" % (listed[0]["what"], len(known_hits), known_hits[0]))
+        else:
+            ctx.violate("monitor", "# a note-off preceding a note-on of the same key at one tick is delivered behind it: %s\n" % known_hits[0])
     ndiff = sq.compare(ctx, PROP, [h for h, _ in hs], res)
     ctx.cov.update({"evaluations": sum(len(h) for h, _ in hs), "histories": len(hs), "events_delivered": nev, "disagreements": ndiff, "monitor_failures": nfail,
                     "traces_validated_against_impl": sum(1 for (h, _), (io, mo) in zip(hs, res) for k in range(len(h)) if mo[k] is not None) - ndiff,
